@@ -33,7 +33,7 @@ REQUIRED = {"rerun.lists_exactly_unsuccessful": {"quick": 500, "thorough": 25000
             "rerun.lists_what_the_reference_model_says_failed": {"quick": 150, "thorough": 8000},
             "rerun.scenario_whose_hook_raised_is_listed": {"quick": 40, "thorough": 2000}}
 REQUIRED_SEEN = {"listed_status": ["failed", "error", "hook_error"], "feature_order": ["directory", "explicit_reversed"],
-                 "fail_fast_environment": ["feature", "rule"], "nested_sub_step": ["undefined", "fail", "error"], "program_shape": ["stepless_scenarios"], "rerun_loop_shape": ["input_only", "same_file_in_and_out", "same_file_in_and_out_by_config"], "raising_hook_of_listed_scenario": ["before_tag", "after_tag", "before_scenario", "before_step"]}
+                 "fail_fast_environment": ["feature", "rule"], "nested_sub_step": ["undefined", "fail", "error"], "second_run_environment": ["autoretry_recipe", "plain"], "first_run_selection": ["name_pattern_matching_rows_only"], "program_shape": ["stepless_scenarios"], "rerun_loop_shape": ["input_only", "same_file_in_and_out", "same_file_in_and_out_by_config"], "raising_hook_of_listed_scenario": ["before_tag", "after_tag", "before_scenario", "before_step"]}
 NSHARDS = {"quick": 16, "thorough": 16}
 
 
@@ -222,9 +222,20 @@ def one_history(lab, mon, rng, case, stale, sample=False):
         args2 = [a for a in case["args"] if not a.startswith("--tags") and a != "--stop" and a != "--dry-run"]
         entered = []
 
+        with_recipe = (len(want_locs) + len(selected)) % 2 == 0 and not case.get("nested")
+
         def rec2(state, context, name, elem, tag):
-            if name == "before_scenario":
+            if name == "before_feature" and with_recipe:
+                # the project's environment.py uses the documented auto-retry recipe: every scenario / outline of the feature is patched
+                # with behave.contrib.scenario_autoretry -- what the second run executes is still what the file lists
+                from behave.contrib.scenario_autoretry import patch_scenario_with_autoretry
+                from behave.model import ScenarioOutline
+                for x in elem.walk_scenarios(with_outlines=True):
+                    if isinstance(x, ScenarioOutline) or not isinstance(getattr(x, "parent", None), ScenarioOutline):
+                        patch_scenario_with_autoretry(x, max_attempts=2)
+            if name == "before_scenario" and (not entered or entered[-1] != str(elem.location)):
                 entered.append(str(elem.location))
+        mon.seen("second_run_environment", "autoretry_recipe" if with_recipe else "plain")
         obs2 = lab.run(case["program"], args=args2, features=feats2, hook_plugins=[rec2])
         if obs2.escaped is not None:
             mon.check("run2.no_exception_escapes", False, lambda: W(escaped=repr(obs2.escaped)))
@@ -336,7 +347,16 @@ def run(spec, mon):
             # scenarios without any step in features without background: skipped in the second run unless listed
             gen.update({"p_stepless": 0.35, "p_background": 0.0, "p_rule_background": 0.0})
             mon.seen("program_shape", "stepless_scenarios")
-        case = RB.gen_case(rng, gen=gen, p_stop=0.1, p_dry=0.0, p_noskipped=0.3)
+        if i % 12 == 0:
+            gen.update({"p_outline": 0.7, "p_nonpass": 0.5, "p_empty_examples": 0.0, "outline_min_rows": 2})
+        case = RB.gen_case(rng, gen=gen, p_stop=0.1, p_dry=0.0, p_noskipped=0.3, p_names=0.15)
+        if i % 12 == 0:
+            # run 1 selects by name, with a pattern that only the generated names of outline ROWS match (row id / Examples title)
+            pat = rng.choice(["@\\d\\.2", "@1\\.1", "E2$", "E1$", "@\\d\\.[23]", "-- @"])
+            case["cfg"]["names"] = [pat]
+            case["cfg"]["tags"] = None
+            case["args"] = [a for a in case["args"] if not a.startswith(("--name", "--tags"))] + ["--name=%s" % pat]
+            mon.seen("first_run_selection", "name_pattern_matching_rows_only")
         if i % 3 == 2:
             duplicate_names(case, rng)
         if i % 4 == 1:
